@@ -1958,8 +1958,6 @@ class FileBuilder:
             self._build_dirs.created_dirs() + cache_file_created_dirs)
         dirs_to_remove = set([os.path.normcase(dir_) for dir_ in created_dirs])
         dirs_to_remove.update(self._build_dirs.norm_cased_error_created_dirs())
-        for dir_ in self._old_cache.created_dirs():
-            dirs_to_remove.discard(os.path.normcase(dir_))
 
         # Remove everything we built, including output files from the previous
         # build that were missing beforehand. restore_all() brings back the
@@ -1969,7 +1967,9 @@ class FileBuilder:
         FileBuilder._remove_empty_dirs(list(dirs_to_remove))
 
         # Restore the files first. One of them might have taken the place of a
-        # directory created during the previous build.
+        # directory created during the previous build. (This is also why we
+        # removed such directories above if they are empty; they are recreated
+        # below.)
         self._backups.restore_all()
         FileBuilder._create_dirs(self._old_cache.created_dirs())
         logger.info('Rolled back build operation')
